@@ -94,7 +94,9 @@ type Upstream struct {
 	eventDispatcher *eventDispatcher
 
 	connState *connStatus
-	state     *streamState
+	// connGeneration is connState.Reconnects() as of the wire connection this stream is bound to.
+	connGeneration uint64
+	state          *streamState
 
 	upstreamChunkResultChs map[uint32]chan *message.UpstreamChunkResult
 	receivedAck            *sync.Cond
@@ -327,7 +329,9 @@ func (u *Upstream) run(isResume bool) error {
 	}
 	eg.Go(func() error {
 		u.connState.cond.L.Lock()
-		for !u.connState.IsWithoutLock(connStatusReconnecting) {
+		// wait until an outage has begun since this stream was bound to its wire connection (not for the
+		// momentary status value: a fast reconnect may already be over when this goroutine gets to look)
+		for u.connState.ReconnectsWithoutLock() == u.connGeneration {
 			select {
 			case <-ctx.Done():
 				u.connState.cond.L.Unlock()
